@@ -2,7 +2,7 @@
    Model: Model/VConstraint.v.  Proofs: Proofs/RangeSpec.v, RangeAlg.v, RangeOps.v, UnionHull.v, UnionExact.v. *)
 From Coq Require Import List Bool NArith String.
 From PC Require Import Base.Cmp Base.Result Model.Pep440 Spec.Pep440Spec Model.VConstraint
-     Proofs.VersionFacts Proofs.RangeSpec Proofs.RangeAlg Proofs.RangeOps Proofs.UnionHull Proofs.UnionExact Proofs.Contain Proofs.InterExact Proofs.DiffExact Proofs.DiffUnion Proofs.UnionTotalGood Proofs.DiffTotal Model.VHyp.
+     Proofs.VersionFacts Proofs.RangeSpec Proofs.RangeAlg Proofs.RangeOps Proofs.UnionHull Proofs.UnionExact Proofs.Contain Proofs.InterExact Proofs.DiffExact Proofs.DiffUnion Proofs.UnionTotalGood Proofs.DiffTotal Proofs.InterTotal Model.VHyp.
 From PC Require Import Gen.RangeCmp Proofs.GenAgreeRange.
 Import ListNotations.
 
@@ -122,6 +122,11 @@ Theorem C05_intersect_exact : forall a b c, goodc a = true -> goodc b = true -> 
   goodc c = true /\ forall v, wf v = true -> regular_c v a = true -> regular_c v b = true -> sem c v = sem a v && sem b v.
 Proof. exact intersect_admits_exactly. Qed.
 Print Assumptions C05_intersect_exact.
+(* ... and defined, with no hypothesis beyond good members: the assertion inside VersionRange.intersect never fails, the walk and
+   VersionUnion.of on the pieces return *)
+Theorem C05_intersect_defined : forall a b, goodc a = true -> goodc b = true -> exists c, intersect a b = Ok c.
+Proof. exact intersect_total. Qed.
+Print Assumptions C05_intersect_defined.
 Theorem C05_hypotheses_are_the_executable_ones : forall c, h_goodc c = goodc c /\ h_sorted c = sorted_c c.
 Proof. intros c. split; reflexivity. Qed.
 Example C05_intersect_example :
@@ -179,8 +184,8 @@ Example C05_difference_union_example :
     goodc a = true /\ goodc b = true /\ sorted_c a = true /\ sorted_c b = true /\ h_mutual a b = true /\
     difference a b = Ok c /\ vc_str c = Ok ">=1.0,<1.5 || >3.5,<=4.0 || >5.0,<=6.0"%string.
 Proof. do 3 eexists. repeat split; vm_compute; reflexivity. Qed.
-(* Still open: that intersection returns at all beyond the range level, and that VersionUnion.of's result is
-   [sorted_c]: it is not in general — '>2.0 || 2.0.post2' is a union the implementation builds (the range excludes
+(* Not provable: that VersionUnion.of's result is
+   [sorted_c] - it is not in general — '>2.0 || 2.0.post2' is a union the implementation builds (the range excludes
    post-releases of its bound) whose members overlap in the plain order; such operands are outside the hypotheses and are
    counted by the check at run time. *)
 
